@@ -411,6 +411,12 @@ func init() {
 			jobs = append(jobs, Job{Pkg: nodePkg, Fn: "VF_C14_Pair", Opts: opts, Tag: "state=" + best[n] + " message=" + want[n] + " api=ProcessOperation(other round)",
 				Case:   "message=" + want[n] + " api=ProcessOperation(other round)",
 				Params: map[string]string{"abs": best[n], "event": want[n], "apiround": "other", "norange": "1", "maxn": "2", "preemptions": pre, "tag": fmt.Sprintf("c14_%d", len(jobs))}})
+			// the operator resets the state while the poller handles the message (the three message kinds of the quick tier)
+			if want[n] == "event_sig_proposal_confirm_by_participant" || want[n] == "event_dkg_commit_confirm_received" || want[n] == "event_signing_start" {
+				jobs = append(jobs, Job{Pkg: nodePkg, Fn: "VF_C14_Pair", Opts: opts, Tag: "state=" + best[n] + " message=" + want[n] + " api=ResetFSMState",
+					Case:   "message=" + want[n] + " api=ResetFSMState",
+					Params: map[string]string{"abs": best[n], "event": want[n], "api": "reset", "norange": "1", "maxn": "2", "preemptions": pre, "tag": fmt.Sprintf("c14_%d", len(jobs))}})
+			}
 			// the operator approves the invitation to another round (ApproveParticipation reads the pool before it answers)
 			if want[n] != "event_signing_start" || cr.Tier == "thorough" {
 				jobs = append(jobs, Job{Pkg: nodePkg, Fn: "VF_C14_Pair", Opts: opts, Tag: "state=" + best[n] + " message=" + want[n] + " api=ApproveParticipation(other round)",
@@ -430,8 +436,8 @@ func init() {
 		cr.groupKey = func(v Violation) string { return v.Label + " @ " + v.Case }
 		cr.explanation = "Two logical threads in the executor: the poller side (real ProcessMessage + SaveOffset for one genuinely signed message with symbolic payload) and the API side (real ProcessOperation submitting the result of a pending operation); context switches at every state-store call and board send, all schedules within the pre-emption bound, sync.Mutex with real mutual exclusion between the threads; the final public state must equal one of the two serial orders; no pending operation lost, no retired operation back."
 		cr.bounds["preemptions"] = pre + " (every schedule within the bound, including which side starts)"
-		cr.bounds["pairs"] = "API request ProcessOperation (answering an operation of this round, or of another round of the node) or ApproveParticipation (invitation to another round) x board message that completes a phase / opens a batch (quick: 3 message kinds, thorough: 7)"
-		cr.bounds["outside"] = "reinit finish and state reset as the API side; races below the granularity of a state-store call (e.g. Reset swapping the DB handle under SaveOffset); more than one message per tick; n > 2"
+		cr.bounds["pairs"] = "API request ProcessOperation (answering an operation of this round, or of another round of the node) or ApproveParticipation (invitation to another round) or ResetFSMState (three message kinds) x board message that completes a phase / opens a batch (quick: 3 message kinds, thorough: 7)"
+		cr.bounds["outside"] = "reinit finish as the API side; races below the granularity of a state-store call (e.g. Reset swapping the DB handle under SaveOffset); more than one message per tick; n > 2"
 		cr.assume = append(cr.assume, "a context switch can only happen at a state-store call or a board send; sync.Mutex gives mutual exclusion; everything else as in C09")
 		cr.trusted = append(cr.trusted, "gosx SSA->SMT executor with logical threads (engine/sched.go)", "z3 4.8.12")
 	}}
